@@ -7,7 +7,7 @@ and symbols, RDKit replaced by fakes honouring its error contract.
 """
 import random
 
-from vf.symkit import PARAM, REPLAY, NoTracing, S, begin, choose, finish, skip
+from vf.symkit import PARAM, REPLAY, NoTracing, C, S, begin, choose, finish, skip
 
 import pgradd.RINGParser.Parser as PP
 import pgradd.RINGParser.Grammar as GG
@@ -156,10 +156,7 @@ def _sym_chars(k):
     n = choose('len', k + 1)
     chars = []
     for i in range(n):
-        c = S('c%d' % i)
-        if len(c) != 1:
-            return None
-        chars.append(c)
+        chars.append(C('c%d' % i))
     return chars
 
 
@@ -265,6 +262,8 @@ def validate(tier, seed):
         for t in texts:
             count[0] = 0
             signal.alarm(5)
+            if len(hangs) >= 2:
+                break               # one hang is a violation; do not spend 5 s on each of hundreds of texts
             try:
                 PP.ParseState(GG.enhanced_grammar, t).parse()
             except _T:
@@ -302,8 +301,8 @@ def validate(tier, seed):
             return ('exc', type(e).__name__)
     rnd = random.Random(seed)
     mism, nh = [], 0
-    corpus = list(SEEDS)
-    for sd in SEEDS:
+    corpus = list(SEEDS) if not hangs else []        # a hang was already found: it is reported, no need to time out on more texts
+    for sd in (SEEDS if not hangs else []):
         for _ in range(6):
             i = rnd.randrange(len(sd))
             corpus.append(sd[:i] + rnd.choice(['', 'x', '1', ' ', '\n', '{', '\u00b2', '_']) + sd[i + 1:])
@@ -324,7 +323,7 @@ def validate(tier, seed):
     # seeds must be accepted by the real Read (they are meant to be valid)
     from pgradd.RINGParser.Reader import Read
     bad = []
-    for sd in SEEDS:
+    for sd in (SEEDS if not hangs else []):
         signal.alarm(5)
         try:
             Read(sd)
